@@ -141,7 +141,9 @@ def rename_type(schema, name, new_name):
 
 
 def rebase_type(schema, name, new_bases):
-    """ALTER TYPE name { DROP EXTENDING <old not in new>; EXTENDING <new not in old> LAST }"""
+    """ALTER TYPE name { DROP EXTENDING <old not in new>; EXTENDING <new not in old> LAST } - or, when the
+    bases that stay have to change their order, EXTENDING <all new bases, in order> LAST (an explicit position
+    re-positions a base that is already there)."""
     obj = schema.get(Q(name))
     old = [str(b.get_name(schema)) for b in obj.get_bases(schema).objects(schema)]
     cmds = []
@@ -149,7 +151,11 @@ def rebase_type(schema, name, new_bases):
     added = [b for b in new_bases if b not in old and b != 'std::Object']
     if removed:
         cmds.append(qlast.AlterDropInherit(bases=[_tn(b) for b in removed]))
-    if added:
+    kept = [b for b in old if b in new_bases and b != 'std::Object']
+    want = [b for b in new_bases if b != 'std::Object']
+    if kept != [b for b in want if b in kept]:
+        cmds.append(qlast.AlterAddInherit(bases=[_tn(b) for b in want], position=qlast.Position(position='LAST')))
+    elif added:
         cmds.append(qlast.AlterAddInherit(bases=[_tn(b) for b in added], position=qlast.Position(position='LAST')))
     if not cmds:
         return schema
